@@ -798,6 +798,21 @@ Proof.
 Qed.
 
 (* ------------------------------------------------------------------ the stepping coroutine *)
+Lemma do_pause_deferred_spec msg next w0 w (Q : result bool -> world -> Prop) :
+  R w0 w -> live w -> (forall r w', R w0 w' -> Q r w') -> wp (do_pause_deferred msg next) Q w.
+Proof.
+  intros HR Hpre HQ. unfold do_pause_deferred. do 2 wp_prim.
+  assert (Hold : wp (do_pause (do_ctl reent_fuel) msg next) Q w).
+  { eapply do_pause_spec; [apply do_ctl_spec | exact HR | right; exact Hpre | exact HQ]. }
+  destruct next as [ns|]; [|exact Hold]. destruct (pausing w) as [a'|]; [|exact Hold].
+  wp_prim. wp_prim. apply (transition_spec (Some ns) w0); [exact HR | exact Hpre|]. intros r1 w1 H1. destruct r1; cbv beta iota.
+  - do 2 wp_prim.
+    match goal with |- wp (if ?c then _ else _) _ _ => destruct c end.
+    + eapply do_pause_spec; [apply do_ctl_spec | exact H1 | left; reflexivity|]. intros r w2 H2. wp_prim. destruct r; apply HQ; r_frame.
+    + do 2 wp_prim. apply HQ. r_frame.
+  - wp_prim. apply HQ. r_frame.
+Qed.
+
 Lemma run_action_spec id next w0 w (Q : result unit -> world -> Prop) :
   R w0 w -> live w -> (forall r w', R w0 w' -> Q r w') -> wp (run_action id next) Q w.
 Proof.
@@ -816,7 +831,7 @@ Proof.
     wp_case; try (wp_prim; apply HQ; exact H1).
     eapply set_act_fut_frame; [exact H1|]. intros r2 w2 H2 _. apply HQ; exact H2. }
   wp_case.
-  - eapply do_pause_spec; [apply do_ctl_spec | exact HR | right; exact Hpre |]. intros r w1 H1. cbv beta iota. apply Hk; exact H1.
+  - eapply do_pause_deferred_spec; [exact HR | exact Hpre |]. intros r w1 H1. cbv beta iota. apply Hk; exact H1.
   - wp_prim.
     assert (Hcase : forall (tgt : option pstate) (b : bool),
        match tgt with None => True | Some _ => live w end ->
